@@ -81,6 +81,15 @@ Theorem C20_refuting_schedule_excluded :
   run [0] true init [Take true; FanOut 0; Reload 0] = None.
 Proof. reflexivity. Qed.
 
+(* a reload refused by the metric store leaves everything as it was: the old
+   version keeps running and receives the following lines *)
+Theorem C20_refused_reload_changes_nothing :
+  forall progs r s p s', step progs r s (ReloadRefused p) = Some s' -> s' = s.
+Proof.
+  intros progs r s p s' H. cbn in H.
+  destruct (locked s || (r && has_ver (cur (ps s p)) (busy (ps s p)))); [discriminate|]. inversion H. reflexivity.
+Qed.
+
 (* non-vacuity: two programs, a reload between two lines, a reload after a
    line was taken but before it was handed over *)
 Example C20_run_nontrivial :
@@ -99,6 +108,7 @@ Print Assumptions C20_order.
 Print Assumptions C20_gauge_last.
 Print Assumptions C20_order_refuted.
 Print Assumptions C20_refuting_schedule_excluded.
+Print Assumptions C20_refused_reload_changes_nothing.
 
 (* ====================================================================== *)
 (* STRUCTURE (added by the C11/C12 translator work; model Export/SeqIR.v, proofs
